@@ -355,6 +355,16 @@ def r02_8(ctx, rr):
     sb = F.one(r"^<rank_sel::select9::Select9<rank_sel::rank9::Rank9<B, C>, I> as traits::rank_sel::SelectUnchecked>::select_unchecked$")
 
     def arms_of(b):
+        import astnorm
+        # the span classes: a match on ranges, or (after normalisation / when written so) an if-chain on the span
+        best = None
+        for n in walk(b.body):
+            if n.get("k") == "If":
+                cl = astnorm.int_classes(n)
+                if cl and len(cl) >= 3 and (best is None or len(cl) > len(best)):
+                    best = cl
+        if best:
+            return [(lo, hi, {"body": body, "pat": {"k": "PWild"} if lo is None else {"k": "PRange"}}) for lo, hi, body in best]
         for n in walk(b.body):
             if n.get("k") == "Match" and n.get("src") == "Normal" and any(a["pat"].get("k") == "PRange" for a in n["arms"]):
                 out = []
